@@ -84,18 +84,42 @@ def r02_1(ctx):
                 oky = True
         ctx.check(oky, R, sk + '|y-range', call_line(b, bi), 'y iterates R.min.y..R.max.y of the same rectangle', 'the rows passed to blit_span do not iterate min.y..max.y of the rectangle that bounds x')
         # structural form when the rectangle is a chain of intersections: its operands must be exactly the four bounds
-        def chain_ops(t):
+        def is_layer_rect(t):
             t = strip_all(t)
-            if t[0] in ('phi', 'rec'):
+            return t[0] == 'field' and t[2] == 'rect' and (t[3] or '').endswith('draw_target::Layer')
+        def is_surface(t):
+            t = strip_all(t)
+            return is_call(t, 'geom::intrect') and len(t[2]) == 4 and const_val(t[2][0]) == 0 and const_val(t[2][1]) == 0 and is_self_field(strip_all(t[2][2]), 'width') and is_self_field(strip_all(t[2][3]), 'height')
+        def is_dest_selection(t):
+            # the destination bounds chosen with the destination: a join of exactly {open layer's rect, surface rect}
+            if t[0] != 'phi':
+                return False
+            alts = [strip_all(x) for x in an.phi_terms(t)]
+            return len(alts) == 2 and any(is_layer_rect(x) for x in alts) and any(is_surface(x) for x in alts)
+        def chain_alts(t, depth=0):
+            """the rectangle as alternatives of intersection chains: [[operand, ..], ..]; a join of rectangles contributes
+            one alternative per joined value; None when the form cannot be read"""
+            t = strip_all(t)
+            if t[0] == 'rec' or depth > 4:
                 return None
+            if t[0] == 'phi':
+                if is_dest_selection(t):
+                    return [[t]]
+                out = []
+                for x in an.phi_terms(t):
+                    a = chain_alts(x, depth + 1)
+                    if a is None:
+                        return None
+                    out += a
+                return out if len(out) <= 8 else None
             if is_call(t, 'Box2D::<T, U>::intersection_unchecked') and len(t[2]) == 2:
-                a, b2 = chain_ops(t[2][0]), chain_ops(t[2][1])
-                if a is None or b2 is None:
+                a, b2 = chain_alts(t[2][0], depth + 1), chain_alts(t[2][1], depth + 1)
+                if a is None or b2 is None or len(a) * len(b2) > 8:
                     return None
-                return a + b2
-            return [t]
-        ops = chain_ops(r1)
-        if ops is not None and len(ops) >= 2:
+                return [x + y for x in a for y in b2]
+            return [[t]]
+        alts = chain_alts(r1)
+        if alts is not None and all(len(ops) >= 2 for ops in alts):
             def kind_of(t):
                 if t == ('param', P_RECT):
                     return 'rect'
@@ -105,10 +129,18 @@ def r02_1(ctx):
                     return 'clip'
                 if t[0] == 'field' and t[3] == '(tuple)' and t[2] == '1' and t[1][0] == 'phi':
                     return 'dest'
+                if t[0] == 'phi' and is_dest_selection(t):
+                    return 'dest'
+                if is_layer_rect(t) or is_surface(t):
+                    return 'dest'       # one arm of the destination selection, on a path that has chosen it
                 return 'other:' + fmt(b, t)[:30]
-            kinds = sorted(kind_of(t) for t in ops)
-            ctx.check(kinds == ['clip', 'dest', 'mask_rect', 'rect'], R, sk + '|intersection chain', call_line(b, bi), 'span rectangle = rect ∩ clip_bounds ∩ dest_bounds ∩ mask_rect',
-                      'the rectangle that bounds the blitted spans is the intersection of %s; it must intersect exactly the rect argument, clip_bounds(), the destination bounds (open layer or surface) and mask_rect — a missing operand means drawing is not limited by it' % kinds)
+            worst = None
+            for ops in alts:
+                kinds = sorted(set(kind_of(t) for t in ops))
+                if kinds != ['clip', 'dest', 'mask_rect', 'rect']:
+                    worst = kinds
+            ctx.check(worst is None, R, sk + '|intersection chain', call_line(b, bi), 'span rectangle = rect ∩ clip_bounds ∩ dest_bounds ∩ mask_rect (on each of %d alternatives)' % len(alts),
+                      'the rectangle that bounds the blitted spans is, on one of its alternatives, the intersection of %s; it must intersect exactly the rect argument, clip_bounds(), the destination bounds (open layer or surface) and mask_rect — a missing operand means drawing is not limited by it' % worst)
         # R depends on all four bounds
         D = Deps(an)
         leaves = D.closure(r1)
